@@ -748,7 +748,7 @@ class Server(Acceptor):
                               store=self.store,
                               timeout=self.timeout)
             if ca in self.ixes and self.ixes[ca] is not incomer:
-                self.shutdownIx[ca]
+                self.shutdownIx(ca)
             self.ixes[ca] = incomer
 
     def serviceConnects(self):
